@@ -354,6 +354,10 @@ def run(prog: Program, col: Collector, tier: str, refs: Optional[Refs] = None, c
     col.rule("R05.10", "no constructor declares the same names both fresh (visible outputs) and bound (invisible)", floor=10)
     _fresh_and_bound_disjoint(prog, col, refs, cat)
 
+    # ---------------------------------------------------------------- R05.11 (shared with C02: R02.21)
+    from . import algebra as _alg
+    _alg.r_nested_fusion_same_red_op(prog, col, refs, cat, "R05.11")
+
     # ---------------------------------------------------------------- R05.2
     col.rule("R05.2", "every constructed term is mangled: all bound names, fresh names, rebuilt through reflect", floor=6)
     _mangle(prog, col, refs)
